@@ -6,6 +6,7 @@ import (
 	"fmt"
 	"os"
 	"path/filepath"
+	"regexp"
 	"sort"
 	"strconv"
 	"strings"
@@ -44,6 +45,9 @@ type replayFile struct {
 		Output    string `json:"output,omitempty"`
 	} `json:"replay"`
 }
+
+// per-path / per-return suffixes of obligation labels are not part of the stable clause identity
+var pathSuffixRe = regexp.MustCompile(`\.[pr]\d+(~\d+)?$`)
 
 func hasProp(ps []string, p string) bool {
 	for _, q := range ps {
@@ -164,13 +168,14 @@ func cmdCheck(args []string) {
 	present := map[string]bool{}
 	var tagged []string
 	for _, o := range obls {
-		present[o.ID()] = true
+		id := pathSuffixRe.ReplaceAllString(o.ID(), "")
 		switch o.Class {
 		case "post", "inv.entry", "inv.pres", "dec.bound", "dec.step", "assert":
-			if !strings.Contains(o.Label, "auto-array") {
-				tagged = append(tagged, o.ID())
+			if !strings.Contains(o.Label, "auto-array") && !present[id] {
+				tagged = append(tagged, id)
 			}
 		}
+		present[id] = true
 	}
 	sort.Strings(tagged)
 	if *writeExpected {
@@ -213,7 +218,7 @@ func cmdCheck(args []string) {
 	for _, v := range viols {
 		isKnown := false
 		for _, k := range known.Findings {
-			if k.Property == *prop && k.Obligation == v.id {
+			if k.Property == *prop && (k.Obligation == v.id || k.Obligation == pathSuffixRe.ReplaceAllString(v.id, "")) {
 				fmt.Printf("KNOWN-FINDING: property=%s %s (%s)\n", *prop, k.What, v.id)
 				knownHit = append(knownHit, v.id)
 				isKnown = true
@@ -238,7 +243,7 @@ func cmdCheck(args []string) {
 		}
 		hit := false
 		for _, h := range knownHit {
-			if h == k.Obligation {
+			if h == k.Obligation || pathSuffixRe.ReplaceAllString(h, "") == k.Obligation {
 				hit = true
 			}
 		}
